@@ -39,7 +39,7 @@ func rpcErrValue(v ssa.Value) bool {
 				return true
 			}
 		}
-		if fv, _ := fieldOf(x); fv != nil && fv.Name() == "Error" && fv.Pkg() != nil && fv.Pkg().Path() == "net/rpc" {
+		if fv, _ := fieldOf(x); fv != nil && refName(fv) == "Error" && fv.Pkg() != nil && fv.Pkg().Path() == "net/rpc" {
 			return true
 		}
 		return false
@@ -530,7 +530,7 @@ func c20done(p *Prog, r *Report) {
 			}
 			k++
 			ok := false
-			if fv, base := fieldOf(ch); fv != nil && fv.Name() == "Done" {
+			if fv, base := fieldOf(ch); fv != nil && refName(fv) == "Done" {
 				for _, g := range gos {
 					if gv, isV := g.(ssa.Value); isV && mustBeValue(base, gv, 0) && sameIter(g.Block(), at.Block()) {
 						ok = true
